@@ -590,6 +590,12 @@ func valueOps(c *Ctx, id string, methods []string, extra func(c *Ctx)) {
 		return dataKeep(rule, construct)
 	})
 	c.probeResults = false
+	// operands are immutable values: no OTHER operation writes into an operand either (an element-wise result is only as
+	// good as the operands an earlier UnSqueeze / Patch / Concat left behind) — the store observer over the remaining methods
+	c.R.Rule("premise (operands stay intact): the store observer (C10.mutation) over the labelled instances of every other public method")
+	RunData(c, func(n string) bool { return !set(n) && !carriers[n] && n != "Scale" && n != "Sum" && n != "Add" }, func(rule, construct string) bool {
+		return rule == "C10.mutation"
+	})
 	if extra != nil {
 		extra(c)
 	}
@@ -659,12 +665,15 @@ func init() {
 		statelessPremise(c, true)
 		// "or hanging": a lock that a call leaves held blocks the next call
 		rules.S16LockPairing(c.P, c.A, c.R)
+		// BackPropagate beyond the nil argument: on the well-formed DAG templates it returns without panic or error
+		premiseWalk(c)
 		addOpsAssumptions(c)
 	})
 	register("C10", "tensors are immutable values decoupled from caller-owned slices", func(c *Ctx) {
 		c.R.Rule("S4 write provenance: every Store/MapUpdate/copy/append in the library writes memory allocated by the same call (fresh, or parameter-derived with the obligation discharged at every caller); only the back-propagation walk, ResetGradContext, Accuracy.Accumulate and SGD.Update write non-fresh memory")
 		c.R.Rule("S5 retention: no slice/any parameter of a public entry point is stored, captured by an escaping closure, or returned; public functions returning slices return fresh memory")
 		c.R.Rule("S3 ownership of CPUTensor/GradContext fields; C10.mutation: in every labelled-element and operation-engine run, no store hits a cell that existed before the call (operands, their dims and data rows, caller slices)")
+		rules.S8SharedState(c.P, c.A, c.R)
 		rules.S4Provenance(c.P, c.A, c.R)
 		rules.S5Retention(c.P, c.A, c.R)
 		rules.S3Ownership(c.P, c.A, c.R)
